@@ -27,6 +27,14 @@ pub proof fn lemma_rd1(d: Seq<u8>, p: int, pre: Seq<u8>, v: nat, all: Seq<u8>)
     assert(x[pre.len() as int] == byte_of(v, 0));
     lemma_wr_index(d, p, all, pre.len() as int);
 }
+pub proof fn lemma_rd1s(d: Seq<u8>, p: int, pre: Seq<u8>, v: u8, all: Seq<u8>)
+    requires 0 <= p, is_prefix(pre + seq![v], all)
+    ensures wr(d, p, all)[p + pre.len()] == v
+{
+    let x = pre + seq![v];
+    assert(x[pre.len() as int] == v);
+    lemma_wr_index(d, p, all, pre.len() as int);
+}
 pub proof fn lemma_rd2(d: Seq<u8>, p: int, pre: Seq<u8>, v: nat, all: Seq<u8>)
     requires 0 <= p, v < 0x10000, is_prefix(pre + be_bytes(v, 2), all)
     ensures be16(wr(d, p, all), p + pre.len()) == v
